@@ -521,3 +521,69 @@ def _scaled_constant_columns(self, tier, seed):
 
 
 BuiltinPermutation.bounded_checks = _scaled_constant_columns
+
+
+def _oscillation_outputs_by_label(self, tier, seed):
+    """B: what `DampedOscillationMegacomplex.finalize_data` reports under an oscillation label - amplitude spectrum, phase
+    (unwrapped along the spectral axis), frequency, rate, cos / sin profiles - depends on that oscillation only: the same
+    clps and matrix under every permutation of the declarations, phases more than pi apart included."""
+    import itertools
+
+    import numpy as np
+    import xarray as xr
+
+    from glotaran.builtin.megacomplexes.damped_oscillation import DampedOscillationMegacomplex
+    from glotaran.parameter import Parameter
+
+    rng = np.random.default_rng(seed)
+    labels = ["oa", "ob", "oc"]
+    freq = {"oa": 5.0, "ob": 11.0, "oc": 17.0}
+    rate = {"oa": 0.3, "ob": 0.7, "oc": 1.1}
+    ng, nt = 9, 5
+    spectral, time = np.linspace(500.0, 580.0, ng), np.linspace(0.0, 2.0, nt)
+    # amplitudes whose phases are far apart between the oscillations (3/4 pi, -3/4 pi, 0.1) and wrap along the axis for one of them
+    phase0 = {"oa": 0.75 * np.pi, "ob": -0.75 * np.pi, "oc": 0.1}
+    amp = {lab: 1.0 + rng.uniform(0, 1, ng) for lab in labels}
+    ph = {lab: phase0[lab] + (np.linspace(0, 2.5 * np.pi, ng) if lab == "oa" else 0.0) for lab in labels}
+    clp_by_label = {}
+    for lab in labels:
+        clp_by_label[f"{lab}_sin"] = amp[lab] * np.sin(ph[lab])
+        clp_by_label[f"{lab}_cos"] = amp[lab] * np.cos(ph[lab])
+    mat_by_label = {k: rng.uniform(-1, 1, nt) for k in clp_by_label}
+    want = {lab: (amp[lab], np.unwrap(np.arctan2(clp_by_label[f"{lab}_sin"], clp_by_label[f"{lab}_cos"]))) for lab in labels}
+
+    class DM:
+        irf = None
+        label = "ds"
+
+    bad, n = None, 0
+    for order in itertools.permutations(labels):
+        mc = DampedOscillationMegacomplex(label="doas", labels=list(order), frequencies=[Parameter(label=f"f.{l}", value=freq[l]) for l in order], rates=[Parameter(label=f"r.{l}", value=rate[l]) for l in order])
+        dm = DM()
+        dm.megacomplex = [mc]
+        for clp_order in (sorted(clp_by_label), sorted(clp_by_label, reverse=True)):
+            n += 1
+            ds = xr.Dataset(
+                {"clp": (("spectral", "clp_label"), np.stack([clp_by_label[k] for k in clp_order], axis=1)), "matrix": (("time", "clp_label"), np.stack([mat_by_label[k] for k in clp_order], axis=1))},
+                coords={"spectral": spectral, "time": time, "clp_label": list(clp_order)},
+                attrs={"model_dimension": "time", "global_dimension": "spectral"},
+            )
+            mc.finalize_data(dm, ds)
+            for lab in labels:
+                got_a = ds["damped_oscillation_associated_spectra"].sel(damped_oscillation=lab).values
+                got_p = ds["damped_oscillation_phase"].sel(damped_oscillation=lab).values
+                got_f = float(ds["damped_oscillation_frequency"].sel(damped_oscillation=lab))
+                got_r = float(ds["damped_oscillation_rate"].sel(damped_oscillation=lab))
+                got_s = ds["damped_oscillation_sin"].sel(damped_oscillation=lab).values
+                got_c = ds["damped_oscillation_cos"].sel(damped_oscillation=lab).values
+                ok = np.allclose(got_a, want[lab][0], rtol=1e-12) and np.allclose(got_p, want[lab][1], rtol=1e-12, atol=1e-12) and got_f == freq[lab] and got_r == rate[lab] and np.array_equal(got_s, mat_by_label[f"{lab}_sin"]) and np.array_equal(got_c, mat_by_label[f"{lab}_cos"])
+                if not ok:
+                    bad = bad or {"declaration_order": list(order), "clp_label_order": list(clp_order)[:2], "label": lab, "phase": np.round(got_p, 3).tolist(), "expected_phase": np.round(want[lab][1], 3).tolist()}
+    return [{"name": "bounded_oscillation_outputs_reported_under_a_label_belong_to_that_oscillation", "ok": bad is None and n > 0, "case": f"{n} result datasets (6 declaration orders x 2 clp label orders)", "function": "glotaran.builtin.megacomplexes.damped_oscillation.damped_oscillation_megacomplex:DampedOscillationMegacomplex.finalize_data", "witness": bad, "detail": "bounded stand-in: native finalize_data on a constructed result dataset"}]
+
+
+def _builtin_bounded(self, tier, seed):
+    return _scaled_constant_columns(self, tier, seed) + _oscillation_outputs_by_label(self, tier, seed)
+
+
+BuiltinPermutation.bounded_checks = _builtin_bounded
